@@ -116,7 +116,7 @@ theorem storeNPrimes_narrow (e : Env) (he : GenSpec e) (vmax n start nthHint Q :
 
 /-- **`generate_n_primes<T>(n)`: success iff `p n` fits the element type** (for `p n` below 2^64) -/
 theorem pcGenerateNPrimes_iff (e : Env) (he : GenSpec e) (vmax n nthHint : ℕ) (hn : 1 ≤ n) (hu : Spec.p n ≤ umax) :
-    (Spec.p n ≤ vmax → pcGenerateNPrimes e vmax n nthHint = .ok (0 :: firstPrimes n)) ∧
+    (Spec.p n ≤ vmax → pcGenerateNPrimes e vmax n nthHint = .ok (0 :: firstNPrimes n)) ∧
     (vmax < Spec.p n → pcGenerateNPrimes e vmax n nthHint = .error .narrow) := by
   constructor
   · intro hv
@@ -124,10 +124,10 @@ theorem pcGenerateNPrimes_iff (e : Env) (he : GenSpec e) (vmax n nthHint : ℕ) 
     rw [storeNPrimes_zero_correct e he vmax n nthHint hu hv]
   · intro hv
     unfold pcGenerateNPrimes
-    rw [storeNPrimes_narrow e he vmax n 0 nthHint (Spec.p n) (firstPrimes n) (firstPrimes_primesIn n hn) hu (Nat.zero_le _)
-      (by rw [firstPrimes_length]) ⟨Spec.p n, ?_, hv⟩]
-    rw [firstPrimes_take n n (le_refl _)]
-    unfold firstPrimes
+    rw [storeNPrimes_narrow e he vmax n 0 nthHint (Spec.p n) (firstNPrimes n) (firstNPrimes_primesIn n hn) hu (Nat.zero_le _)
+      (by rw [firstNPrimes_length]) ⟨Spec.p n, ?_, hv⟩]
+    rw [firstNPrimes_take n n (le_refl _)]
+    unfold firstNPrimes
     exact List.mem_map.2 ⟨n - 1, List.mem_range.2 (by omega), by rw [show n - 1 + 1 = n by omega]⟩
 
 /-- **`store_primes`, error direction**: a non-empty request `[start, stop]` below the last 64-bit prime whose `stop` exceeds the element
